@@ -65,8 +65,13 @@ pub struct DowncastConcreteLibfunc {
 impl DowncastConcreteLibfunc {
     /// Returns the cast type.
     pub fn cast_type(&self) -> CastType {
-        if self.from_ty == self.to_ty && self.from_range.lower.is_zero() {
+        if self.from_ty == self.to_ty
+            && self.from_range.lower.is_zero()
+            && self.to_range.upper <= u128::MAX.into()
+        {
             // Backwards compatibility for the case of casting an unsigned type to itself.
+            // Not for an upper bound of `2**128`, whose check needs no shifted value and so does
+            // not have the costs of the other upper bounds.
             CastType { overflow_above: true, overflow_below: false }
         } else {
             CastType {
